@@ -7,7 +7,9 @@ import (
 	"log/slog"
 	"net"
 	"os"
+	"sync"
 	"sync/atomic"
+	"syscall"
 	"time"
 
 	"github.com/thushan/olla/internal/logger"
@@ -19,26 +21,65 @@ func QuietLogger() logger.StyledLogger {
 	return logger.NewPlainStyledLogger(slog.New(h))
 }
 
-var portCtr int64
+var (
+	portCtr  int64
+	portMu   sync.Mutex
+	ownPorts []int
+)
 
-// FreePort returns a localhost TCP port nobody listens on, drawn from a range that is specific
-// to this process and lies below the kernel's ephemeral range. Several check processes run at
-// the same time; if they all asked the kernel for ":0" ports and released them again, two of them
-// could be handed the same port before their servers listen, and one would silently end up
-// talking to the other's Olla.
+// portDir holds one lock file per reserved port, shared by every check process on the machine.
+const portDir = "/tmp/verif-ports"
+
+// FreePort reserves a localhost TCP port nobody listens on, below the kernel's ephemeral range.
+// Several check processes run at the same time; if they all asked the kernel for ":0" ports and
+// released them again, two of them could be handed the same port before their servers listen,
+// and one would silently end up talking to the other's Olla (or a "dead" endpoint of one
+// process would be answered by a server of another). A port is therefore claimed with an
+// exclusive lock file naming the owning pid; it stays claimed for the life of the process and
+// is never handed out twice. Locks of dead processes are reclaimed.
 func FreePort() int {
-	base := 10000 + (os.Getpid()%20)*1000 // 20 disjoint ranges of 1000 ports; shards have consecutive pids
-	for i := 0; i < 5000; i++ {
+	_ = os.MkdirAll(portDir, 0o777)
+	pid := os.Getpid()
+	for i := 0; i < 40000; i++ {
 		n := atomic.AddInt64(&portCtr, 1)
-		port := base + int(n)%1000
-		l, err := net.Listen("tcp", fmt.Sprintf("127.0.0.1:%d", port))
+		port := 10000 + (pid*7919+int(n)*13)%20000
+		lock := fmt.Sprintf("%s/%d", portDir, port)
+		f, err := os.OpenFile(lock, os.O_CREATE|os.O_EXCL|os.O_WRONLY, 0o666)
 		if err != nil {
+			// held: by a live process (skip) or a dead one (reclaim and retry this port later)
+			if b, rerr := os.ReadFile(lock); rerr == nil {
+				var owner int
+				if _, serr := fmt.Sscanf(string(b), "%d", &owner); serr == nil && owner > 0 && owner != pid {
+					if perr := syscall.Kill(owner, 0); perr == syscall.ESRCH {
+						_ = os.Remove(lock)
+					}
+				}
+			}
 			continue
 		}
+		fmt.Fprintf(f, "%d\n", pid)
+		f.Close()
+		l, err := net.Listen("tcp", fmt.Sprintf("127.0.0.1:%d", port))
+		if err != nil {
+			continue // someone outside the harness listens there; keep the lock so nobody retries it
+		}
 		l.Close()
+		portMu.Lock()
+		ownPorts = append(ownPorts, port)
+		portMu.Unlock()
 		return port
 	}
 	panic("no free port")
+}
+
+// ReleasePorts drops this process's port reservations (called when a check process ends).
+func ReleasePorts() {
+	portMu.Lock()
+	defer portMu.Unlock()
+	for _, p := range ownPorts {
+		_ = os.Remove(fmt.Sprintf("%s/%d", portDir, p))
+	}
+	ownPorts = nil
 }
 
 // Poll calls f every step until it returns true or the budget is used up.
